@@ -1030,7 +1030,7 @@ package iavl
 // from the index shortcut or from loading the version — provided the two
 // boundary reads did not fail (their failures being swallowed is the C17 finding).
 //@ func (*MutableTree).GetVersioned(tree, key, version) (value, err)
-//@   props C07 C14
+//@   props C07 C14 C01
 //@   requires tree != nil && tree.ndb != nil && allocated(tree.ndb) && tree.ndb.db != nil && tree.ImmutableTree != nil && tree.ImmutableTree.ndb == tree.ndb
 //@   requires tree.ndb.legacyLatestVersion == 0 - 1 && tree.ndb.firstVersion > 0 && tree.ndb.latestVersion > 0 && version >= 0
 //@   requires [index-history] fihas[tree.ndb][ord(key)] && fiver[tree.ndb][ord(key)] <= version ==> has(dbtree(version), ord(key)) && lookup(dbtree(version), ord(key)) == fival[tree.ndb][ord(key)]
